@@ -253,7 +253,23 @@ int yywrap(yyscan_t yyscanner)
 	vf_n_wraps++;
 	if (c >= 0 && vf_B[c].alive && vf_B[c].R.head < vf_B[c].R.tail) vf_fail("yywrap consulted with input left in the current buffer", c, 0);
 	k = vf_fresh_src();
-	ch = vf_choose(k >= 0 && c >= 0 && vf_B[c].is_file ? 3 : 1, VF_K_CALL);
+	{
+		int canmore = (k >= 0 && c >= 0 && vf_B[c].is_file), canpop = (vf_sp > 1 && c >= 0 && vf_stk[vf_sp - 2] >= 0);
+		ch = vf_choose(1 + (canmore ? 2 : 0) + (canpop ? 1 : 0), VF_K_CALL);
+		if (canpop && ch == 1 + (canmore ? 2 : 0)) {
+			/* end of an included buffer handled in yywrap: pop back to the including buffer and go on scanning */
+			vf_log("wP ", 0, 0);
+#if defined(VF_API_NR)
+			yypop_buffer_state();
+#else
+			yypop_buffer_state(yyscanner);
+#endif
+			vf_B[c].alive = 0; vf_B[c].handle_valid = 0;
+			vf_sp--;
+			if (vf_B[vf_cur()].is_file) { vf_yyin_src = vf_B[vf_cur()].src; vf_yyin_fresh = 0; }
+			return 0;
+		}
+	}
 	if (ch == 0) { vf_log("w1 ", 0, 0); vf_expect_eof_body = (vf_eof_rule[vf_sc] >= 0); return 1; }
 	if (ch == 1) {
 		/* point yyin at another source: scanning continues in the same buffer, unchanged condition, at beginning of line */
